@@ -557,10 +557,11 @@ class Plan:
         self.reachable = h.closure(self.refs.values(), ex.shallow)  # what must be present in the store
         self.unreachable = sorted(set(h.objs) - self.reachable)
         reach_sorted = sorted(self.reachable)
-        commits_tags = [i for i in reach_sorted if h.objs[i][0] in (b"commit", b"tag")]
+        commits_tags = [i for i in sorted(h.objs) if h.objs[i][0] in (b"commit", b"tag")]  # reachable or not
         others = [i for i in reach_sorted if h.objs[i][0] not in (b"commit", b"tag")]
         step = max(1, len(others) // 24)
-        self.ids = commits_tags + others[::step] + self.unreachable[:40] + ABSENT + list(_FOREIGN.get("ids", ()))
+        self.ids = list(dict.fromkeys(
+            commits_tags + others[::step] + self.unreachable[:40] + ABSENT + list(_FOREIGN.get("ids", ()))))
         self.prefixes = sorted({i[:2] for i in self.ids[:6]} | {i[:5] for i in self.ids[-8:]} | {self.ids[0][:7]})
         self.commits = [c for c in h.cids if c in self.reachable]
         self.lost_commits = [c for c in h.cids if c not in self.reachable]
@@ -779,6 +780,14 @@ def _pack_lacks_ref_tips(ex, heads):
     return any(set(heads) <= ps and not (tips <= ps) for ps in _pack_sets(ex))
 
 
+def _graph_lists_missing_commit(ex, acc_res, plain_res):
+    for c in ex.h.cids:
+        if (acc_res.get(("info", "cg-parents", c), ("ok", None))[:2] != ("ok", None)
+                and plain_res.get(("lookup", "in", c), ("ok", True))[:2] == ("ok", False)):
+            return True
+    return False
+
+
 def _root_trees(ex, commits):
     return {ex.h.objs[c][1][0] for c in commits if c in ex.h.objs}
 
@@ -876,6 +885,12 @@ def compare_variant(ex: Exec, variant: str, acc_res, plain_res, seen_patterns, f
             report_only = False  # the commit still exists in the store: its parents must not change
             fam = "parents"
             pat = _parents_pattern(a, b)
+        if (fam in ("graph", "reach", "reach-excl", "mof") and a[0] == "ok" and b[0] == "exc"
+                and b[1] in ("KeyError", "MissingCommitError") and _graph_lists_missing_commit(ex, acc_res, plain_res)):
+            # the walk runs into a commit that was pruned (e.g. behind a shallow boundary by git) but is still in
+            # the commit-graph: same class as lost-parents, compared but only counted (see ASSUMPTIONS)
+            report_only = True
+            pat = "stale-graph-lists-pruned-commit"
         if foreign and a[0] == "exc" and a[1] in ACCEPTED_LOAD_ERRORS:
             report_only = True  # a mismatched file may be rejected with a documented error
             pat = "rejected:" + pat
@@ -1283,7 +1298,7 @@ def run(ctx):
     selftest(ctx)
     ctx.note("git_version", cgit.version())
     ctx.parallel(_fixed_part, [[c] for c in FIXED])
-    per = ctx.scale(50, 2000)
+    per = ctx.scale(75, 2000)
     ctx.parallel(_part, [per] * 16)
     ab = ctx.extra.get("abandoned", 0)
     if ab * 5 > max(1, ctx.evaluations):
